@@ -53,12 +53,12 @@ func (c Cfg) Plain() bool { return c.Compression == "" && c.Encryption == "" }
 
 type nopLogger struct{}
 
-func (nopLogger) Trace(string, ...interface{})        {}
-func (nopLogger) Debug(string, ...interface{})        {}
-func (nopLogger) Info(string, ...interface{})         {}
-func (nopLogger) Warn(string, ...interface{})         {}
-func (nopLogger) Error(string, ...interface{})        {}
-func (nopLogger) Panic(string, ...interface{})        {}
+func (nopLogger) Trace(string, ...interface{})       {}
+func (nopLogger) Debug(string, ...interface{})       {}
+func (nopLogger) Info(string, ...interface{})        {}
+func (nopLogger) Warn(string, ...interface{})        {}
+func (nopLogger) Error(string, ...interface{})       {}
+func (nopLogger) Panic(string, ...interface{})       {}
 func (l nopLogger) With(...interface{}) golog.Logger { return l }
 
 // Opts selects how the world is put together.
